@@ -3,6 +3,7 @@ package c18
 import (
 	"context"
 	"crypto/sha256"
+	"crypto/x509"
 	"errors"
 	"fmt"
 	"io"
@@ -277,70 +278,133 @@ func decodeAddrPlain(t *testing.T, a ma.Multiaddr) hashSet {
 	return out
 }
 
-// TestE2EFollowingPeriod: an address learnt in one certificate period is dialled in the
-// following period. Against the listener that kept running (it rotated once) the dial
-// must complete: the address still verifies and the server still confirms both hashes.
+// nextRotationOnClock returns the instant at which a listener with host key #keyIdx whose
+// clock shows `at` has to rotate next (NotAfter-skew of the certificate it serves at that
+// instant, read from a throw-away manager on its own mock clock). Used to DRIVE the mock
+// clock of the real listener only; no verdict depends on it.
+func nextRotationOnClock(t *testing.T, keyIdx int, at time.Time) time.Time {
+	t.Helper()
+	cl := clock.NewMock()
+	cl.Set(at)
+	h, err := wt.VerifNewCertManager(keys.Ed(7000+keyIdx).Priv, cl)
+	if err != nil {
+		t.Fatalf("newCertManager: %v", err)
+	}
+	defer h.Close()
+	leaf, err := x509.ParseCertificate(h.GetConfig().Certificates[0].Certificate[0])
+	if err != nil {
+		t.Fatalf("served certificate does not parse: %v", err)
+	}
+	return leaf.NotAfter.Add(-skew)
+}
+
+// TestE2EFollowingPeriod: real dials (loopback UDP, the real transport.dial/upgrade and
+// listener.handshake) with addresses learnt at earlier instants from the SAME running
+// listener. The listener runs on a mock clock that starts k = 1..3 certificate periods
+// before the real time t0 and is moved from rotation instant to rotation instant up to
+// t0, so that the listener performs k rollovers and then serves a certificate that is
+// valid on the wall clock (the dialer verifies against the real time). An address is
+// learnt before the first rollover and after every rollover; at t0 every one of them is
+// dialled:
+//   - learnt in the current or in the previous period: the dial must complete (the
+//     address still verifies and the running listener still confirms every hash of it);
+//   - learnt earlier: the dial must not complete (no hash of the address is served).
+//
 // Against a freshly started listener with the same key (a restart) the certificate
 // still verifies, but the server no longer confirms the older hash, so the dialer must
-// not complete. Both servers run on a mock clock pinned to the same instant t0 (captured
-// once), so that the verdicts do not depend on where the wall clock sits in a period.
+// not complete unless every hash was confirmed. Both servers end up on a mock clock pinned
+// to the same instant t0 (captured once), so that the verdicts do not depend on where the
+// wall clock sits in a period. A few cases run in the quick tier as well.
 func TestE2EFollowingPeriod(t *testing.T) {
-	if !hx.Thorough() {
-		t.Skip("thorough tier only")
-	}
 	name := t.Name()
-	for i := 0; i < 4; i++ {
+	for i := 0; i < hx.Pick(4, 12); i++ {
 		if !hx.Mine(i) {
 			continue
 		}
-		t.Run(fmt.Sprintf("key%d", i), func(t *testing.T) {
+		k := 1 + i%3
+		t.Run(fmt.Sprintf("key%d-rollovers%d", i, k), func(t *testing.T) {
+			keyIdx := 200 + i
 			t0 := time.Now()
 			cl := clock.NewMock()
-			cl.Set(t0.Add(-period))
-			old := startServer(t, 200+i, wt.WithClock(cl))
-			learnt := decodeAddrPlain(t, old.ln.Multiaddr())
-			if len(learnt) != 2 {
-				t.Fatalf("listener advertises %d certhashes: %s", len(learnt), old.ln.Multiaddr())
+			cl.Set(t0.Add(-time.Duration(k) * period))
+			old := startServer(t, keyIdx, wt.WithClock(cl))
+			type learnt struct {
+				hs        hashSet
+				rollovers int // rollovers the listener had performed when the address was learnt
 			}
-			// one period later on the same listener
-			cl.Add(period)
-			deadline := time.Now().Add(5 * time.Second)
-			for decodeAddrPlain(t, old.ln.Multiaddr()).key() == learnt.key() {
-				if time.Now().After(deadline) {
-					t.Skip("inconclusive: the mock-clock timer of the certificate manager did not run")
+			var all []learnt
+			learn := func(n int) hashSet {
+				hs := decodeAddrPlain(t, old.ln.Multiaddr())
+				if len(hs) != 2 {
+					t.Fatalf("listener advertises %d certhashes after %d rollover(s): %s", len(hs), n, old.ln.Multiaddr())
 				}
-				time.Sleep(5 * time.Millisecond)
+				all = append(all, learnt{hs, n})
+				return hs
 			}
-			d := newDialer(t, 200+i)
-			withLearnt := func(a ma.Multiaddr) ma.Multiaddr {
+			prev := learn(0)
+			rollovers := 0
+			for {
+				r := nextRotationOnClock(t, keyIdx, cl.Now())
+				if r.After(t0) {
+					break
+				}
+				cl.Set(r) // the listener's timer is due exactly now
+				deadline := time.Now().Add(5 * time.Second)
+				for decodeAddrPlain(t, old.ln.Multiaddr()).key() == prev.key() {
+					if time.Now().After(deadline) {
+						t.Skip("inconclusive: the mock-clock timer of the certificate manager did not run")
+					}
+					time.Sleep(2 * time.Millisecond)
+				}
+				rollovers++
+				prev = learn(rollovers)
+			}
+			cl.Set(t0)
+			if rollovers == 0 {
+				t.Skip("inconclusive: no rotation instant between the start of the listener's clock and now")
+			}
+			d := newDialer(t, keyIdx)
+			withHashes := func(a ma.Multiaddr, hs hashSet) ma.Multiaddr {
 				out := stripCerthashes(a)
-				for _, h := range learnt {
+				for _, h := range hs {
 					out = out.Encapsulate(certhashComponent(t, h.Digest, h.Code))
 				}
 				return out
 			}
-			err := dialOnce(t, d, withLearnt(old.ln.Multiaddr()), old.id)
-			t.Logf("address learnt one period ago, same listener -> %v", err)
-			if isTimeout(err) {
-				t.Skipf("inconclusive: dial timed out: %v", err)
+			for _, l := range all {
+				age := rollovers - l.rollovers
+				err := dialOnce(t, d, withHashes(old.ln.Multiaddr(), l.hs), old.id)
+				t.Logf("address learnt %d rollover(s) ago (after %d rollover(s) of the listener), same listener -> %v", age, l.rollovers, err)
+				if isTimeout(err) {
+					t.Skipf("inconclusive: dial timed out: %v", err)
+				}
+				if age <= 1 && err != nil {
+					t.Fatalf("an address learnt %d rollover(s) ago (in the %s certificate period, after %d earlier rollover(s)) no longer connects to the listener that kept running: %v",
+						age, map[int]string{0: "current", 1: "previous"}[age], l.rollovers, err)
+				}
+				if age >= 2 && err == nil {
+					t.Fatalf("dial completed with an address learnt %d certificate periods ago: none of its hashes %v is the served certificate (listener advertises %s)", age, l.hs, old.ln.Multiaddr())
+				}
+				first := "listener-had-rolled-before-learn"
+				if l.rollovers == 0 {
+					first = "learnt-before-first-rollover"
+				}
+				stats.CaseEnumerated(name, true, fmt.Sprintf("e2e:same-listener/rollovers-since-learn=%d", min(age, 2)), "e2e:same-listener/"+first)
 			}
-			if err != nil {
-				t.Fatalf("an address learnt in the previous certificate period no longer connects to the listener that kept running: %v", err)
-			}
-			stats.CaseEnumerated(name, true, "e2e:following-period-same-listener")
 
+			learntPrev := all[len(all)-2].hs // learnt one period ago
 			cl2 := clock.NewMock()
 			cl2.Set(t0)
-			fresh := startServer(t, 200+i, wt.WithClock(cl2))
-			err = dialOnce(t, d, withLearnt(fresh.ln.Multiaddr()), fresh.id)
+			fresh := startServer(t, keyIdx, wt.WithClock(cl2))
+			err := dialOnce(t, d, withHashes(fresh.ln.Multiaddr(), learntPrev), fresh.id)
 			t.Logf("address learnt one period ago, restarted listener -> %v", err)
 			if isTimeout(err) {
 				t.Skipf("inconclusive: dial timed out: %v", err)
 			}
 			if err == nil {
 				// the restarted server advertises/confirms only {current, next}
-				if now := decodeAddrPlain(t, fresh.ln.Multiaddr()); !now.superset(learnt) {
-					t.Fatalf("dial completed although the restarted server cannot have confirmed every hash the dialer relied on (dialled %v, server has %v)", learnt, now)
+				if now := decodeAddrPlain(t, fresh.ln.Multiaddr()); !now.superset(learntPrev) {
+					t.Fatalf("dial completed although the restarted server cannot have confirmed every hash the dialer relied on (dialled %v, server has %v)", learntPrev, now)
 				}
 			}
 			stats.CaseEnumerated(name, true, "e2e:following-period-restarted-listener", fmt.Sprintf("e2e:restarted-listener-dial-completed=%v", err == nil))
